@@ -347,3 +347,95 @@ def to_case_stream(ob):
 
 
 to_case_full = to_case_finalize = to_case_chunk = to_case_stream
+
+
+# ------------------------------------------------------------------------------------------
+# frame_by_frame_calculation (C01 corollary, C04 refusal)
+# ------------------------------------------------------------------------------------------
+
+
+def setup_fbf(ex, st):
+    N, cs = api.sym("N"), api.sym("chunk_size")
+    st.assume(z3.And(N >= 0, cs >= 1))
+    api.mk_obj(st, "computer", "FrameComputer", {"_started": "bool"})
+    sig = api.mk_array(st, "signal", N, owner="param:signal")
+    st.env["signal"] = sig
+    st.env["chunk_size"] = cs
+    st.ghost.update(fed=0, chunks=0, finalized=0, N=N)
+    ex.ctx = dict(N=N)
+
+
+def _h_fbf_compute_chunk(ex, st, o, args, kwargs, node, ev):
+    (chunk,) = args
+    if not isinstance(chunk, Arr):
+        raise Outside("compute_chunk argument")
+    lbl = f"L{node.lineno - ex.fx.lineno}"
+    ex.oblige(st, chunk.root == "signal" and chunk.step == 1, f"chunk_is_slice_of_signal.{lbl}", "spec", node.lineno)
+    ex.oblige(st, Z(chunk.off) == Z(st.ghost["fed"]), f"chunks_consecutive.{lbl}", "spec", node.lineno)
+    ex.oblige(st, Z(st.ghost["finalized"]) == 0, f"no_chunk_after_finalize.{lbl}", "spec", node.lineno)
+    st.ghost["fed"] = simp(Z(st.ghost["fed"]) + Z(chunk.n))
+    st.ghost["chunks"] = simp(Z(st.ghost["chunks"]) + 1)
+    st.fields[("computer", "_started")] = True
+    return Opaque(("chunk_feats", st.ghost["chunks"]), "feats")
+
+
+def _h_fbf_finalize(ex, st, o, args, kwargs, node, ev):
+    st.ghost["finalized"] = simp(Z(st.ghost["finalized"]) + 1)
+    st.fields[("computer", "_started")] = False
+    return Opaque("final_feats", "feats")
+
+
+def _h_concat_feats(ex, st, args, kwargs, node, ev):
+    parts = args[0]
+    return Opaque(("concat", len(parts) if isinstance(parts, list) else "?"), "feats")
+
+
+def contract_fbf():
+    c = Contract(
+        target="compute:frame_by_frame_calculation",
+        uses=["A-PYSEM", "A-NP-SLICE"],
+        handlers={
+            "attr:started": lambda ex, st, o, node: st.fields[("computer", "_started")],
+            "FrameComputer.compute_chunk": _h_fbf_compute_chunk,
+            "FrameComputer.finalize": _h_fbf_finalize,
+            "np.concatenate": _h_concat_feats,
+        },
+        raises={"ValueError": "computer._started"},
+        loops={0: LoopSpec(kind="while", modifies_ghost=["fed", "chunks"], modifies_fields=[], types={}, invariant=[
+            ("fed_range", "0 <= fed <= N"),
+            ("suffix", "OFFS(signal) == fed and len(signal) == N - fed"),
+            ("not_finalized", "finalized == 0"),
+            ("list", "ISLIST(coeffs)"),
+        ], decreases="len(signal)")},
+        ensures=[
+            ("whole_signal_fed", "fed == N"),
+            ("finalized_once", "finalized == 1"),
+            ("left_not_started", "not computer._started"),
+        ],
+        consts={"OFFS": SpecFn(lambda ev, a: Z(a.off)), "ISLIST": SpecFn(lambda ev, a: isinstance(a, (list, symex.SeqVal)))},
+    )
+    c.frame_empty_on_raise = True
+    c.no_param_writes = True
+    return c
+
+
+def to_case_c04(ob):
+    """candidate call histories for the C04 stand-in's replay: a first utterance of every length T <= 3L+2 (streamed in one
+    chunk, or frame by frame), finalize (twice for some), then a second utterance compared with a fresh instance"""
+    from pyvc.solve import model_int
+    mode = _mode_of(ob)
+    L, s = model_int(ob.model, "L"), model_int(ob.model, "s")
+    if mode is None:
+        mode, L, s = "causal", L or 4, s or 2
+    if L is None or s is None or not (1 <= s <= L <= 24):
+        L, s = 4, 4
+    base = {"computer": "stft", "frame_style": "causal" if mode == "causal" else "centered", "kaldi_shift": mode == "kaldi",
+            "frame_length": L, "frame_shift": s, "sampling_rate": 1000, "bank": "fbank3", "seed": 0}
+    cases = []
+    pairs = [(L, s)] + [(l2, s2) for l2, s2 in ((L, L), (4, 4), (4, 2), (5, 3), (6, 1)) if (l2, s2) != (L, s)]
+    for l2, s2 in pairs:
+        b = dict(base, frame_length=l2, frame_shift=s2)
+        for T in range(0, 3 * l2 + 3):
+            cases.append(dict(b, ops=[["chunk", T, 1, "f8"], ["finalize"], ["chunk", 2 * l2 + 1, 2, "f8"], ["finalize"]]))
+            cases.append(dict(b, ops=[["chunk", T, 1, "f8"], ["full", 3, 5, "f8"], ["finalize"], ["fbf", 2 * l2 + 1, 2, "f8", 3]]))
+    return cases
